@@ -1000,6 +1000,87 @@ def corpus_scenarios():
     return [json.load(open(f)) for f in sorted(glob.glob(os.path.join(CORPUS, '*.json')))]
 
 
+# ------------------------------------------------------------------ optional references into a group (real code only)
+
+OPT_SCRIPT = r"""
+import sys, json, logging, warnings
+warnings.simplefilter('ignore')
+import andes
+andes.config_logger(stream_level=50)
+spec = json.loads(sys.argv[1])
+class Catch(logging.Handler):
+    def __init__(self):
+        super().__init__(level=logging.ERROR); self.n = 0
+    def emit(self, rec):
+        self.n += 1
+c = Catch(); logging.getLogger('andes').addHandler(c); logging.getLogger().addHandler(c)
+ss = andes.load(andes.get_case('kundur/kundur_ieeeg1.json'), setup=False, no_output=True, default_config=True)
+gens = list(ss.SynGen.get_all_idxes())
+own = ss.IEEEG1.syn.v[0]
+val = {'none': None, 'valid': [g for g in gens if g != own][spec['k'] % (len(gens) - 1)],
+       'dangling-str': 'GENROU_99', 'dangling-int': 9999}[spec['variant']]
+ss.IEEEG1.syn2.v[0] = val
+out = {'variant': spec['variant'], 'value': val}
+try:
+    out['setup'] = bool(ss.setup())
+except Exception as e:
+    out['setup'] = 'raise:' + type(e).__name__
+out['errors_logged'] = c.n
+if out['setup'] is True:
+    ss.PFlow.run(); ss.TDS.config.no_tqdm = 1
+    try:
+        ss.TDS.init()
+        m = ss.IEEEG1
+        out['Sg2'] = float(m.Sg2.v[0]); out['zsyn2'] = float(m.zsyn2.v[0]) if hasattr(m, 'zsyn2') else None
+        if val is not None and val in gens:
+            out['Sn_target'] = float(ss.SynGen.get('Sn', val, 'v'))
+            out['tm2_a'] = int(m.tm2.a[0]); out['tm_target_a'] = int(ss.SynGen.get('tm', val, 'a'))
+    except Exception as e:
+        out['tds'] = 'raise:' + type(e).__name__
+try:
+    ss.SynGen.get('Sn', [val, None], allow_none=True, default=0.0)
+    out['group_get'] = 'ok'
+except Exception as e:
+    out['group_get'] = 'raise:' + type(e).__name__
+print(json.dumps(out))
+"""
+
+
+def optional_ref_stream(ctx):
+    """an OPTIONAL reference into a group (IEEEG1.syn2 -> SynGen): None is a blank, a valid index is resolved to the
+    device it names, a non-None index that names no device is REPORTED (never treated as a blank)"""
+    import subprocess
+    import sys
+    for k, variant in enumerate(['none', 'valid', 'dangling-str', 'dangling-int', 'valid']):
+        spec = {'variant': variant, 'k': ctx.rng.randrange(100) + k}
+        p = subprocess.run([sys.executable, '-c', OPT_SCRIPT, json.dumps(spec)], stdout=subprocess.PIPE, stderr=subprocess.PIPE,
+                           text=True, timeout=900)
+        case = {'stream': 'optional-reference', 'variant': variant, 'k': spec['k']}
+        ctx.case(json.dumps(case, sort_keys=True), case)
+        ctx.count('optional_reference:' + variant)
+        if p.returncode != 0:
+            ctx.oracle_fail('optional-reference-run-raises', 'the optional-reference scenario crashed: ' + p.stderr[-200:], case)
+            continue
+        r = json.loads(p.stdout.strip().split('\n')[-1])
+        if variant.startswith('dangling'):
+            reported = r['setup'] is not True or r['errors_logged'] > 0
+            if not reported:
+                ctx.oracle_fail('dangling-optional-reference-accepted', 'IEEEG1.syn2 = %r names no device of SynGen, yet set-up succeeded '
+                                'without any error (Sg2 = %r): the index was treated like a blank' % (r['value'], r.get('Sg2')), case)
+            if r['group_get'] == 'ok':
+                ctx.oracle_fail('dangling-optional-reference-accepted', 'SynGen.get(Sn, [%r, None], allow_none=True) returned a value for an '
+                                'index that names no device' % (r['value'],), case)
+        elif variant == 'none':
+            if r['setup'] is not True or r['errors_logged'] or r.get('tds'):
+                ctx.oracle_fail('blank-optional-reference-rejected', 'a blank optional reference made set-up fail: %r' % r, case)
+        else:
+            if r['setup'] is not True or r.get('tds'):
+                ctx.oracle_fail('valid-optional-reference-rejected', 'a valid optional reference made set-up fail: %r' % r, case)
+            elif r.get('Sg2') != r.get('Sn_target') or r.get('tm2_a') != r.get('tm_target_a'):
+                ctx.oracle_fail('optional-reference-wrong-device', 'IEEEG1.syn2 = %r: Sg2 = %r (target Sn %r), tm2 at %r (target tm at %r)'
+                                % (r['value'], r.get('Sg2'), r.get('Sn_target'), r.get('tm2_a'), r.get('tm_target_a')), case)
+
+
 def run(ctx):
     import andes
     andes.config_logger(stream_level=50)
@@ -1008,6 +1089,7 @@ def run(ctx):
     scs += [gen_scenario(ctx.rng) for _ in range(ctx.n(100, 1500))]
     res = check_scenarios(ctx, scs)
     check_unique(ctx, res)
+    optional_ref_stream(ctx)
     files = {'GroupBase.add': 'andes/models/group.py', 'GroupBase.get_next_idx': 'andes/models/group.py',
              'GroupBase.find_idx': 'andes/models/group.py', 'GroupBase.set_backref': 'andes/models/group.py',
              'GroupBase.idx2uid': 'andes/models/group.py', 'GroupBase.idx2model': 'andes/models/group.py',
